@@ -131,6 +131,8 @@ func c09(c *Ctx) {
 		"both tables; the channel registered for a request is created for that request (not a shared one). Typed vector results are C13's rule R13.M."
 	r.NotDecided = []string{"all interleavings of callers and the receive loop", "orderings of containers / gzip-packed results", "'never twice' as a history property"}
 	r.Rule("R09.K", "key domains: Add under the request id; Get/Delete under an echoed request id (req_msg_id / bad_msg_id)", 5)
+	r.Rule("R09.I", "every message the transport delivers is handed on and dispatched: no successful exit of readMsg skips processResponse (or the service-channel send), none of processResponse precedes the type switch - a filter in front of the dispatch drops results callers wait for", 2)
+	c.everyMessageDispatched("R09.I")
 	r.Rule("R09.D", "deliver and forget: the result is handed over by a send that cannot be skipped, and every delivering path passes Delete on both tables with the same key", 4)
 	r.Rule("R09.C", "fresh channel: the channel registered for a request is a make(chan) of this call", 1)
 	tr := an.NewTracer()
@@ -363,7 +365,7 @@ func c09(c *Ctx) {
 						for _, b := range f.Blocks {
 							for _, in := range b.Instrs {
 								if ret, ok := in.(*ssa.Return); ok && len(ret.Results) == 1 {
-									ro := tr.OriginString(ret.Results[0])
+									ro := tr.OriginString(an.RetVal(ret, 0))
 									srcs = append(srcs, simplifyOrigin(ro))
 									if !strings.HasPrefix(ro, "makechan:") {
 										fresh = false
